@@ -17,6 +17,7 @@ var c17Bodies = []struct{ name, src string }{
 	{"text", `plain <b>text</b>`},
 	{"emit", `(<%= v %>)`},
 	{"emit-u", `<%= if (u) { %><%= u %><% } else { %>no-u<% } %>`},
+	{"probe-v", `<%= if (v) { %>v=<%= v %><% } else { %>no-v<% } %>`},
 	{"loop", `<%= for (e) in xs { %>[<%= e %><%= v %>]<% } %>`},
 	{"cond", `<%= if (v == "D") { %>data:<%= v %><% } else { %>outer:<%= v %><% } %>`},
 	{"let", `<% let v = "local" %><%= v %><%= tick() %>`},
@@ -36,6 +37,8 @@ var c17Data = []struct {
 	{"shadow", `, {"v": "D"}`, map[string]interface{}{"v": "D"}},
 	{"fresh", `, {"u": "U<"}`, map[string]interface{}{"u": "U<"}},
 	{"both", `, {"v": "D", "u": "U<"}`, map[string]interface{}{"v": "D", "u": "U<"}},
+	{"shadow-with-nil", `, {"v": nil}`, map[string]interface{}{"v": nil}},
+	{"nil-and-fresh", `, {"v": nil, "u": "U<"}`, map[string]interface{}{"v": nil, "u": "U<"}},
 }
 
 var c17Layouts = []string{"", "lay1.html", "lay2.html", "lay.js"}
@@ -127,7 +130,7 @@ func init() {
 			return s
 		},
 		Run:  c17Run,
-		Rule: "(partial) 10 bodies (text, output tags of outer/data names, loop, conditional, let inside, counting marker, quotes/backslash, nested partial, nested partial with layout) x 5 data maps (none, empty, shadowing an outer name, fresh name, both) x layout {none, layout, layout whose template itself uses a partial with a layout, .js layout} x content type {unset, text/html, application/javascript} x partial name extension {.html, .js, none} x position (top level, inside for, inside if, inside a helper block, inside a user function): output equals the composition at string level of the same sources rendered by plush itself as standalone templates in the equivalent scope (JS case: JSEscapeString of it), a counting marker shows every insertion happened exactly once. (content) every sequence of <=4 items from {contentFor(c1){…}, contentFor(c2){…}, contentOf(c1|c2|undefined) with/without data and with/without default block}: contentFor emits nothing where defined, each contentOf emits the stored block rendered with its data in a child of the definition scope (or its default block, or the render fails when undefined), later definitions win. (blocks) block helpers using Block() / BlockWith(child) / calling Block() twice over the same bodies and placements: the string the helper received equals the inline rendering. Non-trivial: all cases with a non-text body or data.",
+		Rule: "(partial) 11 bodies (text, output tags of outer/data names, loop, conditional, let inside, counting marker, quotes/backslash, nested partial, nested partial with layout) x 7 data maps (none, empty, shadowing an outer name, fresh name, both, shadowing with nil, nil + fresh) x layout {none, layout, layout whose template itself uses a partial with a layout, .js layout} x content type {unset, text/html, application/javascript} x partial name extension {.html, .js, none} x position (top level, inside for, inside if, inside a helper block, inside a user function): output equals the composition at string level of the same sources rendered by plush itself as standalone templates in the equivalent scope (JS case: JSEscapeString of it), a counting marker shows every insertion happened exactly once. (content) every sequence of <=4 items from {contentFor(c1){…}, contentFor(c2){…}, contentOf(c1|c2|undefined) with/without data and with/without default block}: contentFor emits nothing where defined, each contentOf emits the stored block rendered with its data in a child of the definition scope (or its default block, or the render fails when undefined), later definitions win. (blocks) block helpers using Block() / BlockWith(child) / calling Block() twice over the same bodies and placements: the string the helper received equals the inline rendering. Non-trivial: all cases with a non-text body or data.",
 		Bound: func(th bool) string {
 			if th {
 				return "all listed combinations; content programs of <=5 items"
